@@ -11,5 +11,5 @@ Definition x_to_bits := F32.to_bits.
 Extraction Language OCaml.
 Extraction "scan_model.ml"
   x_of_bits x_to_bits
-  c_env ce_R ce_Lm ce_scale ce_collect ce_take ce_max_after ce_scores ce_dscore
-  check_c02 check_c03 qual remaining first_missing first_spurious.
+  c_env ce_R ce_Lm ce_scale ce_collect ce_take ce_max_after ce_take_max ce_scores ce_ptab ce_dscore
+  check_c02 check_c03 bits_ge qual remaining first_missing first_spurious.
